@@ -66,6 +66,30 @@ class Predicates:
             if b['k'] == 'CompoundStmt':
                 r = self._ret_chain(F.kids(b), env, universe)
                 return r
+            if b['k'] == 'SwitchStmt':
+                v = self.eval(b['c'][0], env, universe)
+                body = b['c'][1]
+                if v is None or body is None or body['k'] != 'CompoundStmt':
+                    return None
+                hit = dflt = None
+                for st in F.kids(body):
+                    x = st
+                    labels = []
+                    while x is not None and x['k'] in ('CaseStmt', 'DefaultStmt'):
+                        labels.append(x)
+                        x = F.kids(x)[0] if F.kids(x) else None
+                    if hit is None:
+                        for lb in labels:
+                            if lb['k'] == 'CaseStmt' and lb.get('lo') is not None and lb['lo'] <= v <= lb.get('hi', lb['lo']):
+                                hit = x
+                            if lb['k'] == 'DefaultStmt' and dflt is None:
+                                dflt = x
+                        if hit is not None:
+                            break
+                tgt = hit if hit is not None else dflt
+                if tgt is None or tgt['k'] != 'ReturnStmt':
+                    return None  # fall-through chains are not modelled
+                return self._ret_chain([tgt], env, universe)
             if b['k'] != 'IfStmt':
                 return None
             c = self.eval(b['c'][0], env, universe)
@@ -146,7 +170,7 @@ class Predicates:
                         self._depth -= 1
                     if r is not None:
                         return r
-                elif len(g.params) == len(args) and body and all(b['k'] in ('IfStmt', 'ReturnStmt') for b in body):
+                elif len(g.params) == len(args) and body and all(b['k'] in ('IfStmt', 'ReturnStmt', 'SwitchStmt') for b in body):
                     # a chain of `if (c) return e;` ... `return e;` (no assignments, no loops)
                     env2 = {}
                     for prm, a in zip(g.params, args):
